@@ -1,5 +1,51 @@
 import ZoektModel.Basic.Proto
+import ZoektModel.C28.Spec
+import ZoektModel.C27.Wire
 namespace ZoektModel.C28
-/-- stub: no model driver for C28 yet -/
-def main : IO Unit := ZoektModel.Proto.runLines (fun _ => ZoektModel.Proto.badCase "no model driver for C28")
+open ZoektModel ZoektModel.Proto ZoektModel.Regex ZoektModel.Regex.Wire
+
+def stripPrefix? (p s : String) : Option String :=
+  if s.startsWith p then some (s.drop p.length).toString else none
+
+def parseFaImpl (s : String) : Option (List (Nat × Nat) × List (Nat × Nat)) :=
+  match fields s with
+  | [a, b] => do
+    let g ← parseSpans (← stripPrefix? "g=" a)
+    let r ← parseSpans (← stripPrefix? "r=" b)
+    pure (g, r)
+  | _ => none
+
+def envValOf (s : String) : Option (Option (List Char)) :=
+  if s == "unset" then some none else
+  match hexToBytes? s with
+  | some bs => some (some (bs.map fun b => Char.ofNat b.toNat))
+  | none => none
+
+/--
+ops
+  `thr <unset|hex of the value>`   → `threshold()`
+  `disp <t> <len>`                 → `re2` | `grafana`: the engine `FindAllIndex` runs under threshold `t` for `len` input bytes
+  `fa <tree> <orbits> <subject>`   → spec only: spans of both engines (rune indices) admissible for the tree and equal
+-/
+def handle (line : String) : String :=
+  let (inp, impl) := splitCase line
+  match fields inp with
+  | ["thr", v] =>
+    match envValOf v with
+    | some ev => answer (toString (thresholdOf ev))
+    | none => badCase "thr value"
+  | ["disp", t, n] =>
+    match t.toInt?, n.toNat? with
+    | some t, some n => answer (if dispatch t n then "re2" else "grafana")
+    | _, _ => badCase "disp fields"
+  | ["fa", t, orb, subj] =>
+    match parseTree t, parseOrbits orb, parseNats subj, parseFaImpl impl with
+    | some r, some tab, some s, some (g, r2) =>
+      match checkEngines (envOf tab) s.toArray r g r2 with
+      | none => answer impl
+      | some key => specFail impl key
+    | _, _, _, _ => badCase "fa fields"
+  | _ => badCase "op"
+
+def main : IO Unit := runLines handle
 end ZoektModel.C28
